@@ -325,11 +325,6 @@ def run(prog: Program, L: Ledger) -> None:
     rv2 = _seq(f.body(), rv) if isinstance(rv, ast.Name) else rv
     # (locals that name the rotated copy itself stay names: only the value chain of the returned local is followed)
     rv = rv2 if isinstance(rv2, ast.BinOp) else (inl.inline(rv) if isinstance(rv, ast.Name) else rv)
-    if isinstance(rv, ast.BinOp) and isinstance(rv.left, ast.Attribute) is False and isinstance(rv.op, ast.Sub):
-        # `cast('Atoms', context.atoms[idx]).positions − …` after substitution: fold the copy back to the local that holds it
-        for st_ in f.body():
-            if isinstance(st_, ast.Assign) and len(st_.targets) == 1 and isinstance(st_.targets[0], ast.Name) and isinstance(rv.left, ast.Attribute) is False:
-                pass
     okr = isinstance(rv, ast.BinOp) and isinstance(rv.op, ast.Sub) and norm(rv.left).endswith(".positions") and norm(inl.inline(rv.left.value)) == norm(recv) and norm(inl.inline(rv.right)) in ("context.atoms.positions[context._moving_indices]", "context.atoms.get_positions()[context._moving_indices]")
     L.check(okr, "G3", "Rotation.calculate:difference", f.where, f"returned `{norm(rv)[:100]}` is not rotated − original positions of the same index set", "atoms of the group are displaced inconsistently", norm(rv)[:120])
 
